@@ -1028,10 +1028,26 @@ func ValidatorSetFromExistingValidators(valz []*Validator) (*ValidatorSet, error
 	if len(valz) == 0 {
 		return nil, errors.New("validator set is empty")
 	}
+	// The members come from outside (the light client's provider hands over what an
+	// RPC server answered): a total above the maximum or a member listed twice is
+	// an error here, not a panic of the code below, which is written for sets built
+	// internally.
+	var (
+		sum  = int64(0)
+		seen = make(map[string]struct{}, len(valz))
+	)
 	for _, val := range valz {
 		err := val.ValidateBasic()
 		if err != nil {
 			return nil, fmt.Errorf("can't create validator set: %w", err)
+		}
+		if _, ok := seen[string(val.Address)]; ok {
+			return nil, fmt.Errorf("can't create validator set: duplicate validator %X", val.Address)
+		}
+		seen[string(val.Address)] = struct{}{}
+		sum = safeAddClip(sum, val.VotingPower)
+		if sum > MaxTotalVotingPower {
+			return nil, fmt.Errorf("can't create validator set: total voting power exceeds the maximum %d", MaxTotalVotingPower)
 		}
 	}
 
